@@ -226,7 +226,12 @@ impl<CS: BbsCiphersuite> Signature<BBSplus<CS>> {
             ));
         }
 
-        let generators = Generators::create::<CS>(n + 1, Some(CS::API_ID));
+        let generators = Generators::create::<CS>(
+            n.checked_add(1).ok_or(Error::UpdateSignatureError(
+                "number of messages out of range".to_owned(),
+            ))?,
+            Some(CS::API_ID),
+        );
 
         let old_message_scalar =
             BBSplusMessage::map_message_to_scalar_as_hash::<CS>(old_message, CS::API_ID)?;
